@@ -167,9 +167,13 @@ def run(ctx):
         g1[7], g1[8] = g1[8], g1[7]
     fams.insert(1, ("random_pair_random_start", CayleyGraphDef.create([g1, g2], central_state=rp)))
     bm_cases, bm_metas = [], []
-    for name, d in fams[: ctx.budget(3, 7)]:
+    # n = 10 (two trailing positions): adjacent transpositions incl. (8 9), and L, R with a swap of the trailing pair - depth-limited
+    ten = [("coxeter10_depth4", PermutationGroups.coxeter(10), (4,)),
+           ("lr_swap89_depth5", CayleyGraphDef.create([[1, 2, 3, 4, 5, 6, 7, 8, 9, 0], [9, 0, 1, 2, 3, 4, 5, 6, 7, 8], [0, 1, 2, 3, 4, 5, 6, 7, 9, 8]]), (5,))]
+    runs = [(name, d, (10**6, 5)) for name, d in fams[: ctx.budget(3, 7)]] + ten
+    for name, d, depths in runs:
         graph = CayleyGraph(d, device="cpu")
-        for maxd in (10**6, 5):
+        for maxd in depths:
             case = {"engine": "bitmask", "family": name, "max_diameter": maxd, "generators": [list(map(int, p)) for p in d.generators_permutations],
                     "central": [int(v) for v in d.central_state]}
             try:
